@@ -126,11 +126,16 @@ void ABTD_env_init(ABTI_global *p_global)
 
     /* ABT_MEM_STACK_PAGE_SIZE, ABT_ENV_MEM_STACK_PAGE_SIZE
      * Stack page size for memory allocation */
+    /* A page must hold at least four stacks.  Saturate instead of wrapping
+     * around if the stack size is extremely large. */
+    const size_t min_mem_sp_size =
+        (p_global->thread_stacksize <= ABTD_ENV_SIZE_MAX / 4)
+            ? p_global->thread_stacksize * 4
+            : ABTD_ENV_SIZE_MAX;
     p_global->mem_sp_size =
         ABTU_roundup_size(load_env_size("MEM_STACK_PAGE_SIZE",
                                         ABTD_MEM_STACK_PAGE_SIZE,
-                                        p_global->thread_stacksize * 4,
-                                        ABTD_ENV_SIZE_MAX),
+                                        min_mem_sp_size, ABTD_ENV_SIZE_MAX),
                           ABT_CONFIG_STATIC_CACHELINE_SIZE);
 
     /* ABT_MEM_MAX_NUM_STACKS, ABT_ENV_MEM_MAX_NUM_STACKS
